@@ -59,6 +59,17 @@ def raise_fault(kind):
         raise ModelError("injected fault")
     if kind == "stopiter":
         raise StopIteration("injected fault")
+    # arguments that are not one string: a number, several, none, nested, bytes
+    if kind == "keyint":
+        raise KeyError(7)
+    if kind == "oserr":
+        raise OSError(2, "no such thing")
+    if kind == "noargs":
+        raise ValueError()
+    if kind == "tuplearg":
+        raise RuntimeError(("a", 1), None, 2.5)
+    if kind == "custom2":
+        raise ModelError(3.5, b"x", ["y"])
     raise RuntimeError("injected fault")
 
 
@@ -73,7 +84,7 @@ def main():
     for idx, case in enumerate(cases):
         sys.stdout.seek(0); sys.stdout.truncate(0)
         sys.stderr.seek(0); sys.stderr.truncate(0)
-        if hung >= 4:      # a tree on which runs do not come to rest: a few witnesses are enough
+        if hung >= 3:      # a tree on which runs do not come to rest: a few witnesses are enough
             res.append({"skipped": "earlier cases of this batch did not come to rest", "error": "skipped"})
             continue
         try:
@@ -99,6 +110,43 @@ def run_case(case, name):
     from pydsol.core.utils import DSOLError
 
     ck = case["clock"]
+    free = bool(case.get("freetime"))       # times are used verbatim as floats (non-dyadic values): float / Duration-s clocks
+
+    from pydsol.core.simevent import SimEventInterface, SimEvent
+
+    class UserEvent(SimEventInterface):
+        """a minimal user-defined implementation of SimEventInterface (not derived from SimEvent): no target /
+        method / kwargs attributes; ids are drawn from SimEvent's own counter so creation order stays the id order"""
+
+        def __init__(self, time, priority, fn, kw):
+            self._t, self._p, self._fn, self._kw = time, priority, fn, kw
+            self._id = SimEvent._SimEvent__new_event_counter()     # EventListHeap reads event._id
+
+        def execute(self):
+            try:
+                self._fn(**self._kw)
+            except Exception:
+                raise
+            except BaseException as exc:        # like SimEvent.execute: nothing but an Exception leaves an event
+                raise DSOLError("user-defined event failed: " + type(exc).__name__)
+
+        @property
+        def time(self):
+            return self._t
+
+        @property
+        def priority(self):
+            return self._p
+
+        @property
+        def id(self):
+            return self._id
+
+        def __eq__(self, other):
+            return self is other
+
+        def __hash__(self):
+            return id(self)
     # times in the case are integers in units of 2**-scale time units: quarters by default; "scale": 40 gives
     # a fine exact scale (float / Duration-in-seconds clocks; magnitudes < 2**10, so every float addition is exact)
     scale = case.get("scale", 2)
@@ -109,6 +157,8 @@ def run_case(case, name):
     TINY_NEG = {"tinyneg1": -1e-15, "tinyneg2": -5e-324, "tinyneg3": -2.0 ** -60}
 
     def to_time(q):
+        if free and q != "nan":
+            return Duration(float(q), "s") if ck == "dur" else float(q)
         if q == "nan":
             return Duration(float("nan")) if ck in ("dur", "durmin") else float("nan")
         if q in TINY_NEG:       # a negative delay far below half an ulp of any clock > 0 (float / Duration clocks only)
@@ -133,6 +183,9 @@ def run_case(case, name):
         raise ValueError(ck)
 
     def to_q(t):
+        if free:
+            x = float(t)
+            return x if x == x and not math.isinf(x) else ["nonint", repr(t)]
         if isinstance(t, int) and not isinstance(t, bool):
             return t * DEN
         x = float(t) * DEN
@@ -266,8 +319,14 @@ def run_case(case, name):
                     size0 = sim.eventlist().size()
                     entry = ["sched", mode, to_q(sim.simulator_time), None, size0, None, None]
                     rec["log"].append(entry)
+                    ue = case.get("userevents") and (len(self.created) + 2 * hh) % 3 == 0 \
+                        and not (len(mode) > 1 and isinstance(mode[1], str) and mode[1].startswith("tinyneg"))
                     try:
-                        if mode[0] == "now":
+                        if ue:      # a user-defined event object handed to schedule_event()
+                            t = sim.simulator_time if mode[0] == "now" else \
+                                (sim.simulator_time + to_time(mode[1]) if mode[0] == "rel" else to_time(mode[1]))
+                            e = sim.schedule_event(UserEvent(t, prio, self.handle, kw))
+                        elif mode[0] == "now":
                             e = sim.schedule_event_now(self, "handle", prio, **kw)
                         elif mode[0] == "rel":
                             e = sim.schedule_event_rel(to_time(mode[1]), self, "handle", prio, **kw)
@@ -391,7 +450,7 @@ def run_case(case, name):
             n = len(rec["log"])
             if n != last_n:
                 last_n, last_t = n, now
-            if n > 80000:
+            if n > 12000:
                 why = "run does not terminate"
             elif now - last_t > 2.5:
                 why = "no progress for 2.5 s"
